@@ -55,6 +55,11 @@ def jobs(tier):
             for (si, so) in [([(0, 0), (1, 0)], [(1, 0), (0, 1), (0, 0)]), ([(1, 0)], [(0, 1), (1, 1)]), ([(0, 0)], [(0, 1), (0, 0), (1, 0)])]:
                 out.append(("gvc.props.c11", "ob_call", dict(D=D, sin=si, sout=so, use_bias=ub)))
         out.append(("gvc.props.c11", "ob_init", dict(D=D)))
+    # the defining sum is stated through the convolution's definition (C04); the layer obligations above carry the pre-condition
+    # extent >= reach of the dilated filter on toroidal axes.  Narrower toroidal images (several wrap periods) are covered by
+    # C04's obligations for concrete small extents, re-run here because the layer's boundary clause relies on them
+    from .common import dep_jobs
+    out += dep_jobs("gvc.props.c04", lambda fn, kw: fn == "ob_convolve" and kw.get("tag") == "narrow-torus", tier)
     return out
 
 
